@@ -36,6 +36,8 @@ ASSUMPTIONS = ["CRC-32 detects every single-bit error and every burst of <= 32 b
 REACH_MIN = {"bit_flips": {"quick": 80964, "thorough": 1064988}, "bursts": {"quick": 6820, "thorough": 89709},
              "truncations": {"quick": 12236, "thorough": 160950}, "arbitrary": {"quick": 12320, "thorough": 162055},
              "hostile_counts": {"quick": 4000, "thorough": 52615},
+             "hostile_pairs": {"quick": 20000, "thorough": 1000000},
+             "hostile_field_pairs": {"quick": 40000, "thorough": 800000},
              "consumer_oversized_runs": {"quick": 26, "thorough": 342},
              "inner_message_alterations": {"quick": 2000, "thorough": 40000}}
 
@@ -56,6 +58,10 @@ def cases(tier, seed):
     n_arb = {"quick": 32, "thorough": 960}[tier]
     for i in range(n_arb):
         out.append(dict(kind="arbitrary", seed=seed * 27449 + i, n=700))
+    # hostile values in TWO length/count fields at once, on tiny valid responses, every pair of positions
+    n_pairs = {"quick": 16, "thorough": 320}[tier]
+    for i in range(n_pairs):
+        out.append(dict(kind="pairs", seed=seed * 15485863 + i, n={"quick": 2500, "thorough": 6000}[tier]))
     # the consumer half of the sentence ("the consumer then enlarges its buffer rather than skipping"), end to end
     n_cons = {"quick": 48, "thorough": 1200}[tier]
     for i in range(n_cons):
@@ -520,9 +526,126 @@ def run_arbitrary(spec, res):
                       worst_mem_per_byte_beyond_c=round(worst_mem, 3), outcomes=dict(res.events))
 
 
+HOSTILE_PAIR = (0x7FFFFFFF, 0x40000000, 1025, 3, -1, -2, -4, -6, -8, -10, -12, -14, -18, -22, -26, -30)
+
+
+def tiny_responses(rng):
+    """Small valid responses of the list-shaped APIs (one or two topics/partitions, short names)."""
+    ms = R.encode_message_set([(3, R.encode_message(None, b"v", 0, 0, None))]) if rng.random() < 0.5 else b""
+    tn = rng.choice(("t", "tt"))
+    parts2 = rng.random() < 0.4
+    L = 2 + len(tn)
+
+    def fields(first, per_part_header, inner=True):
+        # offsets of the int32 count / length fields: topics, partitions, and the field that follows the fixed
+        # per-partition header (message-set size, offset count) of the first partition
+        f = [first, first + 4 + L]
+        if inner:
+            f.append(first + 4 + L + 4 + per_part_header)
+        return f
+    out = [
+        ("fetch_v0", R.resp_fetch(1, [(tn, [(0, 0, 10, ms)] + ([(1, 0, 7, b"")] if parts2 else []))], version=0),
+         fields(4, 14)),
+        ("fetch_v2", R.resp_fetch(1, [(tn, [(0, 0, 10, ms)] + ([(1, 0, 7, b"")] if parts2 else []))], version=2),
+         fields(8, 14)),
+        ("produce_v0", R.resp_produce(1, [(tn, [(0, 0, 5)] + ([(1, 0, 6)] if parts2 else []))], version=0),
+         fields(4, 0, False)),
+        ("produce_v2", R.resp_produce(1, [(tn, [(0, 0, 5, -1)])], version=2), fields(4, 0, False)),
+        ("list_offsets", R.resp_list_offsets(1, [(tn, [(0, 0, [9, 4])])]), fields(4, 6)),
+        ("offset_commit", R.resp_offset_commit(1, [(tn, [(0, 0)] + ([(1, 0)] if parts2 else []))]),
+         fields(4, 0, False)),
+        ("offset_fetch", R.resp_offset_fetch(1, [(tn, [(0, 5, "", 0)])]), fields(4, 0, False)),
+        ("metadata", R.resp_metadata(1, [(1, "h", 9)], [(0, tn, [(0, 0, 1, [1], [1])])]), [4, 4 + 4 + 4 + 3 + 4]),
+        ("join_group", R.resp_join_group(1, 0, 1, "p", "m", "m", [("m", b"\0\0")]), None),
+        ("message_set", R.encode_message_set([(3, R.encode_message(b"k", b"v", 0, 0, None)),
+                                              (4, R.encode_message(None, b"w", 1, 0, 5))]), [8]),
+    ]
+    return out
+
+
+def run_pairs(spec, res):
+    from afkak.kafkacodec import KafkaCodec as K
+    from afkak import kafkacodec as KC
+    rng = random.Random(spec["seed"])
+    byname = dict(decoders(K))
+    tiny = tiny_responses(rng)
+    meter = Meter()
+    meter.install(KC)
+    tracemalloc.start()
+    worst_steps = 0.0
+    try:
+        # first every pair of count/length fields with every pair of hostile values, then random position pairs
+        todo = []
+        for (name, data, flds) in tiny:
+            if not flds:
+                continue
+            for i_, a in enumerate(flds):
+                for b in flds[i_ + 1:]:
+                    for va in HOSTILE_PAIR:
+                        for vb in HOSTILE_PAIR:
+                            todo.append((name, data, a, b, va, vb))
+        for it in range(len(todo) + spec["n"]):
+            if it < len(todo):
+                name, data, p, q, va, vb = todo[it]
+                res.hit("hostile_field_pairs")
+            else:
+                name, data, _f = tiny[it % len(tiny)]
+                p = rng.randrange(len(data) - 3)
+                q = rng.randrange(len(data) - 3)
+                if abs(p - q) < 4:
+                    q = (p + 4 + rng.randrange(max(1, len(data) - 7))) % (len(data) - 3)
+                va, vb = rng.choice(HOSTILE_PAIR), rng.choice(HOSTILE_PAIR)
+            fn = byname[name]
+            mut = bytearray(data)
+            mut[p:p + 4] = struct.pack(">i", va)
+            if abs(p - q) >= 4:
+                mut[q:q + 4] = struct.pack(">i", vb)
+            data2 = bytes(mut)
+            n_in = len(data2)
+            cap = STEP_A * (n_in + 64) * 40
+            tracemalloc.reset_peak()
+            base = tracemalloc.get_traced_memory()[0]
+            outcome = "value"
+            meter.start(cap)
+            try:
+                fn(data2)
+            except StepLimit:
+                outcome = "step-limit"
+            except Exception as e:
+                outcome = "exc:" + type(e).__name__
+            except BaseException as e:
+                outcome = "base:" + type(e).__name__
+            finally:
+                meter.stop()
+            peak = tracemalloc.get_traced_memory()[1] - base
+            n_eff = n_in + meter.inflated
+            res.n_sub += 1
+            res.hit("hostile_pairs")
+            res.ev(outcome.split(":")[0])
+            res.sigs.add(sig(name, data2))
+            if outcome == "step-limit" or meter.tripped or meter.steps > STEP_A * (n_eff + 64):
+                res.violate("arbitrary/%s/steps-not-proportional" % name, "decoder ran more than %d*(n+64) traced "
+                            "lines on a %d-byte input with two hostile length/count fields" % (STEP_A, n_in),
+                            n=n_eff, steps=meter.steps, data=data2[:200], at=(p, q))
+            if outcome.startswith("base:"):
+                res.violate("arbitrary/%s/non-exception-%s" % (name, outcome[5:]), "decoder raised a BaseException",
+                            data=data2[:200])
+            if peak > MEM_B * n_eff + MEM_C + 131072 * meter.gzip_calls:
+                res.violate("arbitrary/%s/memory-not-proportional" % name, "tracemalloc peak above %d*n+%d" % (
+                    MEM_B, MEM_C), n=n_eff, peak=peak, data=data2[:200], at=(p, q))
+            res.ob("terminates_within_bounds")
+            worst_steps = max(worst_steps, meter.steps / float(n_eff + 64))
+    finally:
+        tracemalloc.stop()
+        meter.uninstall()
+    res.reach["max_steps_per_byte_x100"] = int(worst_steps * 100)
+
+
 def run(spec):
     res = Result()
-    if spec["kind"] == "corrupt":
+    if spec["kind"] == "pairs":
+        run_pairs(spec, res)
+    elif spec["kind"] == "corrupt":
         run_corrupt(spec, res)
     elif spec["kind"] == "consumer":
         from . import c14
